@@ -121,11 +121,6 @@ let () =
         | ["dx"; w; fuel; t] ->
             show_res (fun (t, log) -> show_toks t ^ " calls=" ^ qlist log)
               (do_expansion_log tokenize (world_of_field w) (nat_of_int (int_of_string fuel)) (toks_of_field t))
-        | ["tpl"; head; tail; t] ->
-            let h = str_of_field head and tl = str_of_field tail in
-            let g i = (match int_of_n i with 0 -> h @ str_of_bytes "$(x)" @ tl | 1 -> h | 2 -> tl | _ -> []) in
-            let nm name = (match bytes_of_str name with "head" -> Some (n_of_int 1) | "tail" -> Some (n_of_int 2) | _ -> None) in
-            q (expand_template g nm (str_of_field t))
         | ["den"; w; ps] ->
             let w = world_of_field w and ps = pieces_of_field ps in
             q (render_pieces ps) ^ " " ^ q (den_pieces w ps) ^ " wf=" ^ b2s (wf_pieces ps) ^ " gate=" ^ b2s (gate_ok ps)
